@@ -157,17 +157,39 @@ pub fn run(reg: &[Box<dyn TypeOps>], defaults: &[Option<&'static str>], cfg: &Cf
                 }
             }
         }
+        // … and for 2-byte offset types (S103): a string item of almost 64 KiB whose link offset lands on / next to `L::MAX` = 65535, with
+        // another item behind it (strings only: a 65 000-element vector is too slow for the model's element-wise rendering). A handful of
+        // buffer lengths each.
+        let n_small = boundary.len();
+        if let Shape::Flex(e, l) = &sh {
+            if l.size == 2 {
+                if let Shape::Str(il) = &**e {
+                    if il.size >= 2 {
+                        let os = sh.data_offset();
+                        let isz = il.size;
+                        // the item's link offset is os + ceil(isz + n, al): the values of n around where it reaches 65535
+                        let around = 65535usize.saturating_sub(os + isz);
+                        for n in [around.saturating_sub(al + 2), around.saturating_sub(1), around, around + 1] {
+                            if n as u128 > il.max() { continue; }
+                            boundary.push(D::FlexIter(vec![D::StrFrom(vec![b'a'; n]), D::StrFrom(b"b".to_vec())]));
+                        }
+                    }
+                }
+            }
+        }
         for it in 0..n_inits + boundary.len() {
             let scripted = it >= n_inits;
+            let huge = scripted && it - n_inits >= n_small;
             let d = if scripted { boundary[it - n_inits].clone() } else { gen_init(&sh, &mut rng, 0) };
-            let need = match needed(t.as_ref(), &d, &mut big) { Some(n) => n, None => if scripted { 300 } else { t.min_size() + 8 } };
+            let need = if huge { 65536 + 64 } else { match needed(t.as_ref(), &d, &mut big) { Some(n) => n, None => if scripted { 300 } else { t.min_size() + 8 } } };
             let maxlen = need + 2 * al + 3;
             // every single length, at the natural alignment (slice flush against the end guard when it happens to be aligned,
             // in the middle otherwise), plus misaligned offsets for a subset
             for len in 0..=maxlen {
+                if huge && !(len == need || len == need - 24 || len == maxlen) { continue; }
                 if scripted && len > 6 && len + 12 < need { continue; }
                 let mut places = vec![Place::Mid(0)];
-                if (PAGE - len) % al == 0 && it % 2 == 0 { places.push(Place::End); }
+                if (PAGE - len % PAGE) % al == 0 && it % 2 == 0 { places.push(Place::End); }
                 if al > 1 && (len + it) % 5 == 0 { places.push(Place::Mid(1 + rng.below(al as u64 - 1) as usize)); }
                 if al > 2 && (len + it) % 11 == 0 { places.push(Place::Mid(al / 2)); }
                 for place in places {
@@ -185,7 +207,7 @@ pub fn run(reg: &[Box<dyn TypeOps>], defaults: &[Option<&'static str>], cfg: &Cf
             for rep in 0..reps {
                 let need = t.min_size();
                 for len in 0..=(need + 2 * al + 3) {
-                    let place = if rep == 1 && (PAGE - len) % al == 0 { Place::End } else if rep >= 2 && al > 1 && len % 3 == 0 { Place::Mid(rng.below(16) as usize) } else { Place::Mid(0) };
+                    let place = if rep == 1 && (PAGE - len % PAGE) % al == 0 { Place::End } else if rep >= 2 && al > 1 && len % 3 == 0 { Place::Mid(rng.below(16) as usize) } else { Place::Mid(0) };
                     let pre = rng.bytes(len);
                     let a16 = a16_of(&ar, place, len);
                     write!(out, "F {} {} {} {} {} => ", tid, pc(place), a16, spec, hex(&pre)).unwrap();
